@@ -479,19 +479,21 @@ func appendInt(dst []byte, bits uint8, index uint64) []byte {
 	}
 	b0 := uint64(1<<bits - 1)
 
-	if index <= b0 {
+	if index < b0 {
 		dst[len(dst)-1] |= byte(index)
 		return dst
 	}
 
+	// A value that fills the prefix exactly still needs a continuation octet,
+	// even though what is left to write is zero (RFC 7541 5.1).
 	dst[len(dst)-1] |= byte(b0)
 	index -= b0
-	for index != 0 {
+	for index >= 128 {
 		dst = append(dst, 128|byte(index&127))
 		index >>= 7
 	}
 
-	dst[len(dst)-1] &= 127
+	dst = append(dst, byte(index))
 
 	return dst
 }
